@@ -6,5 +6,8 @@ lock = {}
 for f in sorted(glob.glob(os.path.join(HERE, 'evidence', 'C*.json'))):
     ev = json.load(open(f))
     lock[ev['property_id']] = sorted(o['name'] for o in ev['coverage']['per_obligation'] if o['status'] == 'proved')
+    # statements of functions under contract that no symbolic execution reaches (reviewed: each is explained in DESIGN.md A.6)
+    lock[ev['property_id'] + '#unexecuted'] = sorted(ev['coverage'].get('unexecuted_statements', []))
 json.dump(lock, open(os.path.join(HERE, 'obligations.lock'), 'w'), indent=1, sort_keys=True)
-print({k: len(v) for k, v in lock.items()})
+print({k: len(v) for k, v in lock.items() if '#' not in k})
+print({k: v for k, v in lock.items() if '#' in k and v})
